@@ -602,6 +602,60 @@ def float_monitors(chk, tier):
     reset_manager()
 
 
+def at_monitors(chk, tier):
+    """objects CREATED inside a context from a managed container: ev.at(t) of a density-matrix evolution and U.at(t) of an evolution
+    superoperator.  After the context is left the new object is back in the original representation: it equals the same slice taken
+    outside; the container itself is restored; and its action / content inside the context is the transformed one."""
+    import io
+    import contextlib
+    import numpy as np
+    import quantarhei as qr
+    r = cm.rng(PID + "at")
+    for k in range(4 if tier == "quick" else 24):
+        reset_manager()
+        rs = np.random.RandomState(r.randrange(2 ** 31))
+        n = int(rs.choice([2, 3]))
+        what = ["rdm_evolution", "evolution_superoperator"][k % 2]
+        c = {"kind": "at:" + what, "n": n, "seed_case": k}
+        try:
+            with contextlib.redirect_stdout(io.StringIO()):
+                Hm = rs.randn(n, n) * 0.2
+                Hm = Hm + Hm.T + np.diag(np.arange(n) * 1.0)
+                H = qr.Hamiltonian(data=Hm)
+                ta = qr.TimeAxis(0.0, 6, 1.0)
+                a = rs.randn(n, n) + 1j * rs.randn(n, n)
+                rho = a.dot(a.conj().T)
+                rho = rho / np.trace(rho)
+                if what == "rdm_evolution":
+                    cont = qr.ReducedDensityMatrixPropagator(ta, H).propagate(qr.ReducedDensityMatrix(data=rho))
+                else:
+                    K = np.zeros((n, n))
+                    K[0, n - 1] = 1.0
+                    sbi = qr.qm.SystemBathInteraction([qr.qm.Operator(data=K)], rates=[0.05])
+                    cont = qr.qm.EvolutionSuperOperator(ta, H, relt=qr.qm.LindbladForm(H, sbi, as_operators=False))
+                    cont.calculate()
+                tq = float(rs.choice([1.0, 2.0, 4.0]))
+                before = np.array(cont.data).copy()
+                ref = np.array(cont.at(tq).data).copy()
+                with qr.eigenbasis_of(H):
+                    obj = cont.at(tq)
+                    inside = np.array(obj.data).copy()
+                after_obj = np.array(obj.data)
+                after_cont = np.array(cont.data)
+            chk.count("at:" + what)
+            chk.case(("at", k, what, n), True)
+            sc = max(1.0, float(np.max(np.abs(ref))))
+            if float(np.max(np.abs(after_obj - ref))) > 1e-10 * sc:
+                chk.violation("at:created_inside_not_restored:" + what, "%s.at(%g) taken inside eigenbasis_of(H): after the context the object differs from "
+                              "the same slice taken outside by %.3g (inside it held the transformed slice: %s)"
+                              % (what, tq, float(np.max(np.abs(after_obj - ref))), bool(np.max(np.abs(inside - ref)) > 1e-6)), "monitor", c)
+            if float(np.max(np.abs(after_cont - before))) > 1e-10 * max(1.0, float(np.max(np.abs(before)))):
+                chk.violation("at:container_not_restored:" + what, "%s after a context in which .at() was called differs from before by %.3g"
+                              % (what, float(np.max(np.abs(after_cont - before)))), "monitor", c)
+        except Exception as e:
+            chk.violation("at:exception:" + what, "at() monitor raised %r" % (e,), "monitor", c)
+
+
 def tensor_monitors(chk, tier):
     """real relaxation tensors of a small aggregate (4-index Redfield, 5-index time-dependent Redfield) inside the eigenbasis of real
     symmetric and complex Hermitian operators: the action of the tensor on a state computed inside the context (the result is an
@@ -709,6 +763,7 @@ def main():
         run(chk, corpus + [gen_case(r, k) for k in range(n)])
         float_monitors(chk, args.tier)
         tensor_monitors(chk, args.tier)
+        at_monitors(chk, args.tier)
     chk.finish()
 
 
